@@ -128,8 +128,10 @@ def run_property(pid, tier='quick', seed=0, explain=None):
         raise MachineryError('analysis preconditions R00 not met: ' + '; '.join(bad[:5]))
     mod = importlib.import_module('sa.rules.' + pid)
     mod.run(ctx)
-    if tier == 'thorough' and hasattr(mod, 'run_thorough'):
-        mod.run_thorough(ctx)
+    if tier == 'thorough':
+        if hasattr(mod, 'run_thorough'):
+            mod.run_thorough(ctx)
+        thorough_extras(ctx, pid, root, facts)
     known = load_known()
     open_keys = {e['key']: e for e in known.get('open', []) if e.get('property') == pid}
     new = []
@@ -172,6 +174,62 @@ def run_property(pid, tier='quick', seed=0, explain=None):
     print('OK property=%s tier=%s instances=%d holding=%d known=%d functions=%d tree=%s wall=%.1fs' % (
         pid, tier, len(ctx.instances), n_ok, len(known_hit), len(ctx.functions), info['tree_sha256'][:12], wall))
     return 0
+
+
+def _norm_body(b):
+    """body facts with configuration-dependent *printing* removed (re-export paths, DefIds in closure types)"""
+    import re
+    t = json.dumps(b['blocks'], sort_keys=True)
+    t = t.replace('bitflags::__private::core::', 'std::').replace('core::', 'std::')
+    t = re.sub(r'DefId\([^)]*\)', 'DefId', t)
+    t = re.sub(r'\{closure@[^}]*\}', '{closure}', t)
+    return t
+
+
+def thorough_extras(ctx, pid, root, full_facts):
+    """Thorough tier: (T.config) every analysed body is identical in the other buildable feature configurations;
+    (T.witness) compile-fail witness for Kinematics: Send + Sync (properties with rayon clauses);
+    (T.selftest) the catalogued mutants of this property are reported and its behaviour-preserving variants are not."""
+    import subprocess
+    ctx.rule('T.config', 'bodies analysed for this property are identical in every buildable non-visual feature configuration that contains them')
+    full = {b['path']: b for b in full_facts['bodies']}
+    configs = ['full']
+    for cfg in ('bare', 'collisions', 'fs_collisions'):
+        other, _ = factsmod.extract(cfg, root)
+        configs.append(cfg)
+        ob = {b['path']: b for b in other['bodies']}
+        shared = [p for p in ctx.functions if p in ob and p in full]
+        diff = [p for p in shared if _norm_body(ob[p]) != _norm_body(full[p])]
+        if diff:
+            raise MachineryError('configuration-dependent bodies (%s vs full): %s' % (cfg, diff[:5]))
+        ctx.ok('T.config', cfg, '', '%d of %d analysed bodies exist in this configuration and are identical' % (len(shared), len(ctx.functions)), nontrivial=bool(shared))
+    ctx.extra['configs'] = configs
+    if pid in ('C10', 'C12', 'C14'):
+        from . import witness
+        ctx.rule('T.witness', 'a Kinematics implementation holding Rc<Cell<_>> must fail to compile (E0277) while its Arc<AtomicUsize> twin compiles: Kinematics: Send + Sync')
+        res, lines = witness.run(root)
+        ctx.check(res['compile_fail'] and res['twin'], 'T.witness', 'Kinematics: Send + Sync', 'src/kinematic_traits.rs', 'kinematic_traits::Kinematics',
+                  'the trait no longer forces implementations to be Send + Sync: closures evaluated by rayon could race (%s)' % res, detail='; '.join(lines))
+    if os.path.realpath(root) == '/repo':
+        ctx.rule('T.selftest', 'catalogued mutants of this property make the quick check fail with the named rule; behaviour-preserving variants keep it silent')
+        sys.path.insert(0, VERIF)
+        from selftest.mutants import MUTANTS, KEEP
+        ids = [m[0] for m in MUTANTS if m[4] == pid] + [k[0] for k in KEEP if pid in k[4]]
+        if ids:
+            outp = os.path.join(factsmod.CACHE, 'selftest-%s.json' % pid)
+            p = subprocess.run([sys.executable, os.path.join(VERIF, 'tools', 'run_selftest.py'), '--only', ','.join(ids), '--jobs', '6', '--json', outp],
+                               capture_output=True, text=True, env=dict(os.environ, VERIF_TIER='quick'))
+            res = json.load(open(outp))
+            for r in res['mutants']:
+                if r.get('property') not in (None, pid):
+                    continue
+                if not r['ok']:
+                    raise MachineryError('self-test: mutant %s (%s) was not reported by %s: %s' % (r['id'], r.get('desc'), pid, r.get('why')))
+                ctx.ok('T.selftest', r['id'], '', 'mutant "%s" reported by %s' % (r.get('desc'), ','.join(r.get('fired', []))))
+            for r in res['keep']:
+                if not r['ok']:
+                    raise MachineryError('self-test: behaviour-preserving variant %s (%s) raised an alarm: %s' % (r['id'], r.get('desc'), r.get('checks')))
+                ctx.ok('T.selftest', r['id'], '', 'variant "%s" silent' % r.get('desc'))
 
 
 def build_evidence(ctx, mod, new, known_hit, wall):
